@@ -34,9 +34,13 @@ func RenCase(rect image.Rectangle, samples []image.Point, ops []Call) string {
 
 // RunRen drives a zero-value render.Renderer (after SetRasterizer) with the ops; rc/rn read selectors.
 func RunRen(rect image.Rectangle, samples []image.Point, ops []Call) (obs string, rec *RecRaster) {
-	rec = &RecRaster{Samples: samples}
+	// (the recorder stops a run-away Renderer: at most four rasteriser calls per Destination call on the unchanged tree)
+	rec = &RecRaster{Samples: samples, Limit: 8*len(ops) + 256}
 	defer func() {
 		if p := recover(); p != nil {
+			if _, ok := p.(WorkLimit); ok {
+				p = "rasteriser-work-limit"
+			}
 			obs = "PANIC:" + strings.ReplaceAll(fmt.Sprint(p), " ", "_")
 		}
 	}()
@@ -66,9 +70,12 @@ func RunRen(rect image.Rectangle, samples []image.Point, ops []Call) (obs string
 // ivg.DestinationLogger into the Renderer, whose rasteriser is a raster.RasterizerLogger around the recorder.
 // (Both print every call; the caller silences stdout.)
 func RunRenWrapped(rect image.Rectangle, samples []image.Point, ops []Call, alt bool) (obs string) {
-	rec := &RecRaster{Samples: samples}
+	rec := &RecRaster{Samples: samples, Limit: 8*len(ops) + 256}
 	defer func() {
 		if p := recover(); p != nil {
+			if _, ok := p.(WorkLimit); ok {
+				p = "rasteriser-work-limit"
+			}
 			obs = "PANIC:" + strings.ReplaceAll(fmt.Sprint(p), " ", "_")
 		}
 	}()
